@@ -2986,6 +2986,29 @@ where
             .into());
         }
 
+        // A triangulation with a periodic global topology stores canonical representatives
+        // (the builder wraps the initial vertices into the fundamental domain): wrap a vertex
+        // that is inserted later the same way, keeping its UUID and data.
+        let vertex = if self.global_topology.model().periodic_domain().is_some() {
+            let mut coords = *vertex.point().coords();
+            if let Err(source) = self
+                .global_topology
+                .model()
+                .canonicalize_point_in_place(&mut coords)
+            {
+                return Err(TriangulationConstructionError::FailedToAddVertex {
+                    message: format!(
+                        "vertex {} cannot be canonicalized for the global topology: {source}",
+                        vertex.uuid()
+                    ),
+                }
+                .into());
+            }
+            Vertex::new_with_uuid(Point::new(coords), vertex.uuid(), vertex.data)
+        } else {
+            vertex
+        };
+
         let mut stats = InsertionStatistics::default();
         let original_coords = *vertex.point().coords();
         let original_uuid = vertex.uuid();
